@@ -291,6 +291,9 @@ func exec(kind string, in []string) []string {
 		if pmsg != "" {
 			return "PANIC " + vh.HS(pmsg)
 		}
+		if cur.conn.hasSpun() {
+			return "SPIN"
+		}
 		for i, u := range cur.conn.replyUnits() {
 			word := ""
 			if i > 0 && i-1 < len(cur.words) {
@@ -444,6 +447,9 @@ func execNet(in []string) []string {
 		return []string{"WEDGED"}
 	}
 	srv.Drain()
+	if s.conn.hasSpun() {
+		return []string{"SPIN"} // the session kept reading although every read failed
+	}
 	var outs []string
 	for i, u := range s.conn.replyUnits() {
 		word := ""
